@@ -56,7 +56,7 @@ func c17PosixMode(st *syscall.Stat_t) uint32 { return st.Mode & 0xFFFF }
 
 func checkC17Files(c *lib.Ctx) {
 	r := c.R
-	root, err := os.MkdirTemp("", "vh-c17-")
+	root, err := lib.MkScratch("vh-c17-")
 	if err != nil {
 		r.Fail(lib.Failure{Kind: "tie", Key: "tmpdir", What: err.Error()})
 		return
